@@ -579,7 +579,7 @@ pub fn c05(big: bool) -> BoxedStrategy<Case> {
         // a delayed task that runs for a while once it has fired
         1 => (1u32..=10, 5u32..=40).prop_map(|(ticks, d)| vec![Step::AddTimer(TimerSpec { kind: TimerKind::DelayedExec, ticks, work: vec![Step::Sleep(d)] })]),
     ];
-    (prop_oneof![10 => plain_spawn(false), 2 => proptest::option::of(mailbox()).prop_map(|builder| SpawnSpec::Register { builder }), 2 => stream_spawn()], started, 1usize..=3)
+    (prop_oneof![10 => plain_spawn(false), 2 => proptest::option::of(mailbox()).prop_map(|builder| SpawnSpec::Register { builder, timeout: None }), 2 => stream_spawn()], started, 1usize..=3)
         .prop_flat_map(move |(spawn, started, n)| {
             let owning = spawn.owning();
             (
@@ -952,11 +952,24 @@ pub fn c11(big: bool) -> BoxedStrategy<Case> {
             (Just((timeout, fail, mb, owning)), grants(n, owning, 1), vec(vec(op, 2..=max_ops), n..=n), schedule(32))
         })
         .prop_map(|((timeout, fail_on_timeout, (mailbox, strategy), owning), grants, clients, schedule)| {
-            let spawn = SpawnSpec::Build { mailbox, strategy, timeout, fail_on_timeout, owning };
+            // one in eight is a service registered through the builder's own terminal
+            let spawn = if schedule.len() % 8 == 3 && !owning {
+                SpawnSpec::Register { builder: Some(mailbox), timeout: timeout.map(|t| (t, fail_on_timeout)) }
+            } else {
+                SpawnSpec::Build { mailbox, strategy, timeout, fail_on_timeout, owning }
+            };
+            // one in four has a repeating timer whose tick handler is slower or faster than the limit
+            let mut beh = Behavior::default();
+            if let (Some(t), true) = (timeout, schedule.len() % 4 == 1) {
+                let slow = schedule.len() % 8 == 1;
+                let kind = if schedule.len() % 16 < 8 { TimerKind::Interval } else { TimerKind::IntervalWith };
+                let d = if slow { t + 2 } else { t / 2 };
+                beh.started.push(Step::AddTimer(TimerSpec { kind, ticks: 3 * t + 7, work: if d == 0 { vec![] } else { vec![Step::Sleep(d)] } }));
+            }
             let mut c = Case {
                 family: Family::C11,
-                actors: one_actor(spawn, Behavior::default()),
-                default_beh: vec![],
+                actors: one_actor(spawn, beh.clone()),
+                default_beh: vec![beh],
                 grants,
                 clients,
                 faults: vec![],
@@ -1191,8 +1204,8 @@ fn reg_op(kinds: u8, weights: [u32; 7]) -> BoxedStrategy<ClientOp> {
 pub fn c14(big: bool) -> BoxedStrategy<Case> {
     let max_ops = if big { 14 } else { 9 };
     let spawn = prop_oneof![
-        3 => Just(SpawnSpec::Register { builder: None }),
-        1 => mailbox().prop_map(|m| SpawnSpec::Register { builder: Some(m) }),
+        3 => Just(SpawnSpec::Register { builder: None, timeout: None }),
+        1 => mailbox().prop_map(|m| SpawnSpec::Register { builder: Some(m), timeout: None }),
         2 => plain_spawn(false),
     ];
     let cause = prop_oneof![6 => Just(Cause::None), 2 => (0u32..5).prop_map(Cause::HandlerPanic), 1 => Just(Cause::StartFail(FailHow::Err)), 1 => (1u32..8).prop_map(Cause::Cancel)];
@@ -1253,7 +1266,7 @@ pub fn c08(big: bool) -> BoxedStrategy<Case> {
             let mut actors = vec![];
             let mut grants = vec![];
             if let Some(builder) = pre {
-                actors.push(ActorSpec { kind: 0, spawn: SpawnSpec::Register { builder }, parent: None, beh: Behavior::default(), peer: None });
+                actors.push(ActorSpec { kind: 0, spawn: SpawnSpec::Register { builder, timeout: None }, parent: None, beh: Behavior::default(), peer: None });
                 grants.push(Grant { client: 0, actor: 0, kind: HKind::Addr });
             }
             finalize(Case { family: Family::C08, actors, default_beh, grants, clients, faults: vec![], schedule, settle: 0 })
@@ -1341,7 +1354,7 @@ pub fn c06(big: bool) -> BoxedStrategy<Case> {
         1 => Just(SpawnSpec::Spawn),
         1 => Just(SpawnSpec::SpawnOwning),
         4 => (mailbox(), any::<bool>()).prop_map(|(mailbox, owning)| SpawnSpec::Build { mailbox, strategy: RStrat::Default, timeout: None, fail_on_timeout: false, owning }),
-        2 => Just(SpawnSpec::Register { builder: None }),
+        2 => Just(SpawnSpec::Register { builder: None, timeout: None }),
         2 => stream_spawn(),
     ];
     let reg = prop_oneof![Just(ChildReg::Unit), Just(ChildReg::Msg0)];
